@@ -17,6 +17,7 @@ from ..model import AnalysisError, norm, walk_own, const_value
 from .. import q, pathrules as pr, dataflow as df
 from ..layout import Lay, Rep, decode_ok
 from . import c01, c03, c04, c17
+from .roles import AdvanceNames, nested_where
 
 EXPLANATION = ('static necessary conditions of C02: byte-layout agreement of all history row readers / co-writers with History.flush '
                'and add_unflushed, big-endian row ids, per-tx de-duplication, lock-step counters on all CFG paths, prior-state order, '
@@ -46,16 +47,19 @@ def rule_layout(ctx, sch):
     n += 1
     # readers
     H = lambda name: ctx.func('hist', name)
-    for name, binds in (('History.get_txnums', {'hashX': HX}), ('History.backup', {'hashX': HX}), ('History.clear_excess', {}),
+    sch.s[('iter', H('History.backup').params[1])] = HX       # History.backup(hashXs, ...) iterates script hashes
+    for name, binds in (('History.get_txnums', None), ('History.backup', {}), ('History.clear_excess', {}),
                         ('History._compact_prefix', {})):
         f = H(name)
+        if binds is None:
+            binds = {f.params[1]: HX}
         env = sch.env(f, binds)
         if name != 'History._compact_prefix':
             n += c01.scan_store_reads(ctx, sch, env, f, rule)
         n += c01.scan_decodes(ctx, sch, env, f, rule)
         # stride of every chunks(<row value>, k)
         for c in f.own_nodes():
-            if isinstance(c, ast.Call) and norm(c.func).split('.')[-1] == 'chunks' and len(c.args) == 2:
+            if isinstance(c, ast.Call) and q.callee_name(ctx, f, c).split('.')[-1] == 'chunks' and len(c.args) == 2:
                 src = env.ev(c.args[0])
                 k = env.const_int(c.args[1])
                 if isinstance(src, Rep):
@@ -66,7 +70,7 @@ def rule_layout(ctx, sch):
                               loc=ctx.loc(f, c))
     # backup: kept prefix hist[:5 * idx]
     bk = H('History.backup')
-    env = sch.env(bk, {'hashX': HX})
+    env = sch.env(bk, {})
     for s in bk.own_nodes():
         if isinstance(s, ast.Assign) and isinstance(s.targets[0], ast.Subscript) and isinstance(s.value, ast.Subscript) and isinstance(s.value.slice, ast.Slice):
             v = env.ev(s.value)
@@ -77,7 +81,7 @@ def rule_layout(ctx, sch):
     # compaction co-writer
     ch = H('History._compact_hashX')
     env = sch.env(ch, {ch.params[1]: HX})
-    keys = [s for s in ch.own_nodes() if isinstance(s, ast.Assign) and norm(s.targets[0]) == 'key']
+    keys = [s for s in ch.own_nodes() if isinstance(s, ast.Assign) and isinstance(s.targets[0], ast.Name) and 'pack_be_uint16' in norm(s.value)]
     for s in keys:
         n += c01.eq_ob(ctx, rule, ch, s, 'compacted row key', env.ev(s.value), hk, 'compacted rows use the history row key layout')
     mr = [s for s in ch.own_nodes() if isinstance(s, ast.Assign) and 'max_hist_row_entries' in norm(s.value)]
@@ -90,12 +94,18 @@ def rule_layout(ctx, sch):
                   f'WIDTH-CONST: compacted row size uses {k} bytes per entry, an entry is {len(entry)}', loc=ctx.loc(ch, s))
     cp = H('History._compact_prefix')
     env = sch.env(cp, {})
-    for s in cp.own_nodes():
-        if isinstance(s, ast.Assign) and norm(s.targets[0]) == 'hashX' and isinstance(s.value, ast.Subscript):
-            lp = [p for p, _f in q.enclosing_chain(s, cp.node) if isinstance(p, ast.For)][0]
-            env2 = sch.env(cp, {norm(lp.target.elts[0]): hk})
-            n += c01.eq_ob(ctx, rule, cp, s, 'hashX of a row key', env2.ev(s.value), HX, 'script hash of a row')
-    kl = [s for s in cp.own_nodes() if isinstance(s, ast.Assign) and norm(s.targets[0]) == 'key_len']
+    rowloops = [s for s in cp.own_nodes() if isinstance(s, ast.For) and isinstance(s.iter, ast.Call) and isinstance(s.iter.func, ast.Attribute)
+                and s.iter.func.attr == 'iterator' and isinstance(s.target, ast.Tuple)]
+    klnames = set()
+    for lp in rowloops:
+        kv = norm(lp.target.elts[0])
+        for s in lp.body:
+            if isinstance(s, ast.Assign) and isinstance(s.value, ast.Subscript) and isinstance(s.value.slice, ast.Slice) and norm(s.value.value) == kv:
+                env2 = sch.env(cp, {kv: hk})
+                n += c01.eq_ob(ctx, rule, cp, s, 'hashX of a row key', env2.ev(s.value), HX, 'script hash of a row')
+            if isinstance(s, ast.If) and isinstance(s.test, ast.Compare) and f'len({kv})' in norm(s.test):
+                klnames |= {x for x in q.names_in(s.test) if x not in (kv, 'len')}
+    kl = [s for s in cp.own_nodes() if isinstance(s, ast.Assign) and isinstance(s.targets[0], ast.Name) and s.targets[0].id in klnames]
     for s in kl:
         v = sch.env(cp).const_int(s.value)
         n += 1
@@ -142,11 +152,12 @@ def rule_lockstep(ctx):
     txl = c03.tx_loop(ctx, f)
     n = 0
     hv = norm(txl.target.elts[1])
+    nm = AdvanceNames(ctx, f)
     parts = {
-        'tx hash recorded': [q.stmt(c) for c in c03.calls_canon(ctx, f, txl, 'tx_hashes.append') if norm(c.args[0]) == hv],
-        'per-tx hashX list recorded': [q.stmt(c) for c in c03.calls_canon(ctx, f, txl, 'hashXs_by_tx.append')],
+        'tx hash recorded': [q.stmt(c) for c in c03.calls_canon(ctx, f, txl, f'{nm.block_hashes}.append') if norm(c.args[0]) == hv],
+        'per-tx hashX list recorded': [q.stmt(c) for c in c03.calls_canon(ctx, f, txl, f'{nm.by_tx}.append')],
         'tx number advanced': [s for s in txl.body if isinstance(s, ast.AugAssign) and isinstance(s.op, ast.Add) and const_value(s.value) == 1
-                               and norm(s.target) == 'tx_num'],
+                               and norm(s.target) == nm.tx_num],
     }
     for label, stmts in parts.items():
         ok = len(stmts) == 1
@@ -157,17 +168,21 @@ def rule_lockstep(ctx):
                   f'{label}: not exactly once per transaction (tx numbers, hashes and histories go out of step)', witness=wit, loc=ctx.loc(f, txl))
         n += 1
     # fresh list per tx
-    fresh = [s for s in txl.body if isinstance(s, ast.Assign) and norm(s.targets[0]) == 'hashXs' and norm(s.value) == '[]']
-    ctx.check(len(fresh) == 1 and txl.body.index(fresh[0]) == 0, 'C02.LOCKSTEP', ctx.key(f, txl, 'fresh list per tx'),
+    fresh = [s for s in txl.body if isinstance(s, ast.Assign) and norm(s.targets[0]) == nm.per_tx and norm(s.value) == '[]']
+    tcfg = cfg
+    first_use = [c for c in c03.calls_canon(ctx, f, txl, f'{nm.per_tx}.append')]
+    ctx.check(len(fresh) == 1 and all(tcfg.dominates(tcfg.node(fresh[0]), tcfg.node(q.stmt(u))) for u in first_use), 'C02.LOCKSTEP', ctx.key(f, txl, 'fresh list per tx'),
               'each transaction starts with an empty hashX list', 'the per-tx hashX list is not reset at the start of each transaction', loc=ctx.loc(f, txl))
     # tx number bytes of the cache value recomputed per tx from the running number
-    tn = [s for s in txl.body if isinstance(s, ast.Assign) and norm(s.targets[0]) == 'tx_numb']
-    ok = len(tn) == 1 and 'tx_num' in q.names_in(tn[0].value) and tn[0].lineno < [s for s in parts['tx number advanced']][0].lineno if parts['tx number advanced'] else False
+    tn = [s for s in txl.body if isinstance(s, ast.Assign) and isinstance(s.targets[0], ast.Name) and nm.tx_num in q.names_in(s.value)
+          and any(isinstance(c, ast.Call) for c in ast.walk(s.value))]
+    ok = len(tn) == 1 and bool(parts['tx number advanced']) and tn[0].lineno < parts['tx number advanced'][0].lineno and \
+        norm(tn[0].targets[0]) in q.names_in(c03.calls_canon(ctx, f, txl, 'self.utxo_cache.__setitem__')[0].args[1])
     ctx.check(ok, 'C02.LOCKSTEP', ctx.key(f, txl, 'tx number bytes per tx'), 'the packed tx number is recomputed for each transaction before the number advances',
               'the packed tx number stored with new UTXOs is not recomputed per transaction', loc=ctx.loc(f, txl))
     # the block's hashes are what is queued
     blk = c03.calls_canon(ctx, f, f.node, 'self.tx_hashes.append')
-    ctx.check(len(blk) == 1 and norm(blk[0].args[0]) == "b''.join(tx_hashes)" and not q.in_body(blk[0], txl.body), 'C02.LOCKSTEP',
+    ctx.check(len(blk) == 1 and norm(blk[0].args[0]) == f"b''.join({nm.block_hashes})" and not q.in_body(blk[0], txl.body), 'C02.LOCKSTEP',
               ctx.key(f, None, 'block hashes queued'), 'the joined tx hashes of the block are queued once', 'the block\'s tx hashes are not queued once, joined in order',
               loc=ctx.loc(f, f.node))
     return n + 3
@@ -179,10 +194,11 @@ def rule_priorstate(ctx):
     n = 0
     sw = c03.state_writes(ctx, f).get('tx_count', [])
     au = c03.calls_canon(ctx, f, f.node, 'self.db.history.add_unflushed')
-    init = [s for s in q.assigns(ctx, f, 'tx_num') if isinstance(s, ast.Assign)]
+    nm = AdvanceNames(ctx, f)
+    init = [s for s in q.assigns(ctx, f, nm.tx_num) if isinstance(s, ast.Assign)]
     ok = len(sw) == 1 and len(au) == 1 and len(init) == 1
     if ok:
-        ok = ctx.res.canon(au[0].args[1], f) == 'self.state.tx_count' and norm(au[0].args[0]) == 'hashXs_by_tx' and \
+        ok = ctx.res.canon(au[0].args[1], f) == 'self.state.tx_count' and norm(au[0].args[0]) == nm.by_tx and \
             cfg.find_path([cfg.node(sw[0])], {cfg.node(q.stmt(au[0]))}) is None and \
             ctx.res.canon(init[0].value, f) == 'self.state.tx_count' and cfg.find_path([cfg.node(sw[0])], {cfg.node(init[0])}) is None
     ctx.check(ok, 'C02.PRIORSTATE', ctx.key(f, None, 'numbering from the prior count'),
@@ -192,7 +208,7 @@ def rule_priorstate(ctx):
     n += 1
     tc = c03.calls_canon(ctx, f, f.node, 'self.db.tx_counts.append')
     txl = c03.tx_loop(ctx, f)
-    ok2 = len(tc) == 1 and norm(tc[0].args[0]) == 'tx_num' and q.stmt(tc[0]).lineno > txl.end_lineno and len(sw) == 1 and norm(sw[0].value) == 'tx_num'
+    ok2 = len(tc) == 1 and norm(tc[0].args[0]) == nm.tx_num and q.stmt(tc[0]).lineno > txl.end_lineno and len(sw) == 1 and norm(sw[0].value) == nm.tx_num
     ctx.check(ok2, 'C02.PRIORSTATE', ctx.key(f, None, 'cumulative count'),
               'after the transaction loop the final tx number becomes the block\'s cumulative count and the new tx count',
               'tx_counts / state.tx_count do not receive the final tx number after the loop', loc=ctx.loc(f, f.node))
@@ -209,7 +225,7 @@ def rule_bothsides(ctx):
     n = 0
     for lp, partner, label in ((il, c03.calls_to(ctx, f, il, spend.key), 'spent'),
                                (ol, c03.calls_canon(ctx, f, ol, 'self.utxo_cache.__setitem__'), 'created')):
-        apps = c03.calls_canon(ctx, f, lp, 'hashXs.append')
+        apps = c03.calls_canon(ctx, f, lp, f'{AdvanceNames(ctx, f).per_tx}.append')
         ok = len(apps) == 1 and len(partner) == 1
         wit = None
         if ok:
@@ -288,14 +304,22 @@ def rule_flushid(ctx, sch):
               'history rows and the history state record are not written in one batch', loc=ctx.loc(f, f.node))
     n += 1
     loops = [s for s in f.own_nodes() if isinstance(s, ast.For) and q.in_body(sch.hist_put, s.body)]
-    ok3 = len(loops) == 1 and norm(loops[0].iter) in ('sorted(unflushed)', 'unflushed', 'sorted(self.unflushed)') and \
-        not any(isinstance(x, (ast.If, ast.Break, ast.Continue)) for x in walk_own(loops[0]))
-    vals_ok = norm(sch.hist_put.args[1]) in (f'bytes(unflushed[{norm(loops[0].target)}])', f'bytes(self.unflushed[{norm(loops[0].target)}])') if loops else False
+    def is_unflushed(e):
+        return ctx.res.canon(e, f) == 'self.unflushed'
+    ok3 = False
+    vals_ok = False
+    if len(loops) == 1:
+        it = loops[0].iter
+        inner = it.args[0] if isinstance(it, ast.Call) and norm(it.func) == 'sorted' and it.args else it
+        ok3 = is_unflushed(inner) and not any(isinstance(x, (ast.If, ast.Break, ast.Continue)) for x in walk_own(loops[0]))
+        v = sch.hist_put.args[1]
+        vals_ok = isinstance(v, ast.Call) and norm(v.func) == 'bytes' and isinstance(v.args[0], ast.Subscript) and is_unflushed(v.args[0].value) \
+            and norm(v.args[0].slice) == norm(loops[0].target)
     ctx.check(ok3 and vals_ok, 'C02.CONSUME', ctx.key(f, None, 'all unflushed rows written'),
               'every script hash with unflushed entries gets its row, holding exactly those entries',
               'not every unflushed script hash is written with exactly its entries', loc=ctx.loc(f, f.node))
     n += 1
-    clears = [q.stmt(c) for c in q.own_calls(f) if norm(c.func) in ('unflushed.clear', 'self.unflushed.clear')]
+    clears = [q.stmt(c) for c in q.own_calls(f) if q.callee_name(ctx, f, c) == 'self.unflushed.clear']
     wexits = [e.gnode for e in ig.of('COMMIT', 'HIST')]
     ok4 = len(clears) == 1 and bool(wexits)
     if ok4:
@@ -311,41 +335,61 @@ def rule_flushid(ctx, sch):
 def rule_byheight(ctx):
     f = ctx.func('db', 'DB.fs_tx_hashes_at_blockheight')
     p = f.params[1]
-    d = df.defs(f)
     n = 0
-    first = [s for s in f.own_nodes() if isinstance(s, ast.Assign) and norm(s.targets[0]) == 'first_tx_num']
-    vals = sorted(norm(s.value) for s in first)
+    reads = [c for c in q.own_calls(f) if q.callee_name(ctx, f, c) == 'self.hashes_file.read']
+    if len(reads) != 1 or len(reads[0].args) != 2:
+        raise AnalysisError(f'{f.key}: expected one hashes_file.read(offset, size)')
+    off, size = reads[0].args
+
+    def factor32(e):
+        if isinstance(e, ast.BinOp) and isinstance(e.op, ast.Mult):
+            if const_value(e.right) == 32 and isinstance(e.left, ast.Name):
+                return e.left.id
+            if const_value(e.left) == 32 and isinstance(e.right, ast.Name):
+                return e.right.id
+        return None
+    fv, cv = factor32(off), factor32(size)
+    d = df.defs(f)
+    fdefs = d.get(fv, []) if fv else []
+    vals = sorted(norm(rhs) for _s, rhs in fdefs)
     conds = []
-    for s in first:
-        cc = pr.control_conditions(s, f.node)
+    for st, rhs in fdefs:
+        cc = pr.control_conditions(st, f.node)
         if len(cc) == 1 and q.cmp_matches(ctx, f, cc[0][0], f'{p} > 0'):
-            conds.append((norm(s.value) != '0') == cc[0][1])
+            conds.append((norm(rhs) != '0') == cc[0][1])
     ok = vals == ['0', f'self.tx_counts[{p} - 1]'] and conds == [True, True]
     ctx.check(ok, 'C02.BYHEIGHT', ctx.key(f, None, 'first tx number'), 'the first tx number of a block is the cumulative count of the previous block (0 for genesis)',
-              f'first tx number of a block is not tx_counts[height - 1] / 0: {vals} under {conds}', loc=ctx.loc(f, f.node))
+              f'first tx number of a block is not tx_counts[height - 1] / 0: {vals}', loc=ctx.loc(f, f.node))
     n += 1
-    cnt = [s for s in f.own_nodes() if isinstance(s, ast.Assign) and norm(s.value) == f'self.tx_counts[{p}] - first_tx_num']
-    reads = [c for c in q.own_calls(f) if q.callee_name(ctx, f, c) == 'self.hashes_file.read']
-    ok2 = len(cnt) == 1 and len(reads) == 1 and norm(reads[0].args[0]) == 'first_tx_num * 32' and norm(reads[0].args[1]) == f'{norm(cnt[0].targets[0])} * 32'
+    cdefs = d.get(cv, []) if cv else []
+    ok2 = len(cdefs) == 1 and fv is not None and norm(cdefs[0][1]) == f'self.tx_counts[{p}] - {fv}'
     ctx.check(ok2, 'C02.BYHEIGHT', ctx.key(f, None, 'span read'), 'exactly the block\'s hashes are read: count * 32 bytes at first * 32',
               'the bytes read are not (tx_counts[h] - first) * 32 at first * 32', loc=ctx.loc(f, f.node))
     n += 1
     rets = [r for r in f.own_nodes() if isinstance(r, ast.Return)]
-    ok3 = len(rets) == 1 and isinstance(rets[0].value, ast.ListComp) and not rets[0].value.generators[0].ifs and \
-        norm(rets[0].value.elt).replace(' ', '') == 'tx_hashes[idx*32:(idx+1)*32]' and cnt and norm(rets[0].value.generators[0].iter) == f'range({norm(cnt[0].targets[0])})'
+    ok3 = False
+    rs = q.stmt(reads[0])
+    if len(rets) == 1 and isinstance(rets[0].value, ast.ListComp) and isinstance(rs, ast.Assign) and cv:
+        lc = rets[0].value
+        g = lc.generators[0]
+        buf, iv = norm(rs.targets[0]), norm(g.target)
+        ok3 = not g.ifs and norm(g.iter) == f'range({cv})' and norm(lc.elt).replace(' ', '') == f'{buf}[{iv}*32:({iv}+1)*32]'
     ctx.check(ok3, 'C02.BYHEIGHT', ctx.key(f, None, 'slices'), 'the hashes are the consecutive 32-byte slices, in block order',
               'the returned hashes are not the consecutive 32-byte slices in order', loc=ctx.loc(f, f.node))
     n += 1
-    g = ctx.func('db', 'DB.limited_history').nested.get('read_history')
-    okh = False
-    if g is not None:
-        rets = [r for r in g.own_nodes() if isinstance(r, ast.Return)]
-        tn = [s for s in g.own_nodes() if isinstance(s, ast.Assign) and 'get_txnums' in norm(s.value)]
-        okh = len(rets) == 1 and isinstance(rets[0].value, ast.ListComp) and not rets[0].value.generators[0].ifs and len(tn) == 1 and \
-            norm(tn[0].value) == 'list(self.history.get_txnums(hashX, limit))' and norm(rets[0].value.generators[0].iter) == norm(tn[0].targets[0])
-    ctx.check(okh, 'C02.BYHEIGHT', 'electrumx/server/db.py :: DB.limited_history.read_history :: order preserved',
+    lh = ctx.func('db', 'DB.limited_history')
+    g = nested_where(lh, lambda x: any(isinstance(c, ast.Call) and q.callee_name(ctx, x, c) == 'self.history.get_txnums' for c in x.own_nodes()),
+                     'reads the tx numbers of the history')
+    rets = [r for r in g.own_nodes() if isinstance(r, ast.Return)]
+    tn = [s for s in g.own_nodes() if isinstance(s, ast.Assign) and any(isinstance(c, ast.Call) and q.callee_name(ctx, g, c) == 'self.history.get_txnums' for c in ast.walk(s.value))]
+    okh = len(rets) == 1 and isinstance(rets[0].value, ast.ListComp) and not rets[0].value.generators[0].ifs and len(tn) == 1 and \
+        isinstance(tn[0].value, ast.Call) and norm(tn[0].value.func) == 'list' and norm(rets[0].value.generators[0].iter) == norm(tn[0].targets[0])
+    if okh:
+        gt = [c for c in ast.walk(tn[0].value) if isinstance(c, ast.Call) and q.callee_name(ctx, g, c) == 'self.history.get_txnums'][0]
+        okh = [norm(a) for a in gt.args] == [lh.params[1], lh.kwonly[0] if lh.kwonly else 'limit']
+    ctx.check(okh, 'C02.BYHEIGHT', ctx.key(g, None, 'order preserved'),
               'every tx number of the history is mapped to (hash, height), in order, none dropped',
-              'tx numbers are filtered / reordered when mapped to hashes')
+              'tx numbers are filtered / reordered when mapped to hashes', loc=ctx.loc(g, g.node))
     return n + 1
 
 
